@@ -268,17 +268,23 @@ class CRDTStore(Entity):
         )
         self._gossip_sent += 1
 
-        # Schedule next gossip tick
-        from happysimulator.core.temporal import Instant
+        # Schedule next gossip tick. With periodic gossip disabled (interval 0)
+        # a tick is a single manually triggered round: re-arming it would put
+        # the next tick at the current instant, forever.
+        events = [push_event]
+        if self._gossip_interval > 0:
+            from happysimulator.core.temporal import Instant
 
-        next_tick = Event(
-            time=Instant.from_seconds(self.now.to_seconds() + self._gossip_interval),
-            event_type="GossipTick",
-            target=self,
-            daemon=True,
-        )
+            events.append(
+                Event(
+                    time=Instant.from_seconds(self.now.to_seconds() + self._gossip_interval),
+                    event_type="GossipTick",
+                    target=self,
+                    daemon=True,
+                )
+            )
 
-        yield 0.0, [push_event, next_tick]
+        yield 0.0, events
         return None
 
     def _handle_gossip_push(
